@@ -1,6 +1,13 @@
 """C06: Linear / CategoricalCalibration weight constraints.
 Tie: LinearConstraints(...)(w), CategoricalCalibrationConstraints(...)(w) vs Tfl.Linear.project /
-Tfl.Categorical.project.  Oracle: signs, dominance, range dominance, norm, pairs, bounds, fixpoint."""
+Tfl.Categorical.project -- `Tfl.Linear.project` is the function of the composite theorem
+Tfl.C06.accepted_project (sign clip -> monotonic dominance -> range dominance -> normalisation); orders 1 and inf
+are normalised by the model in Q and compared exactly; order 2 (and a general p) is irrational: the model returns
+the pre-normalised column, its squared norm and the guard decision `l2Skips` (norm < 1e-8 decided in Q), the
+harness divides by the float root (real arithmetic) and additionally checks the root-free form of the claim
+(out_i^2 * normSq == pre_i^2, equal signs).
+Oracle: signs, dominance, range dominance, norm, idempotence (project(project w) == project w), pairs, bounds,
+fixpoint."""
 import math
 import numpy as np
 from fractions import Fraction
@@ -11,12 +18,19 @@ RULE = ("hostile Linear dominance sets (circular: k-cycles in any rotation, (d, 
         "rejected at construction or else project without raising; configs drawn from one PRNG: Linear (1-7 dims, 1-3 units, monotonicities in {-1,0,1}, acyclic "
         "monotonic/range dominance graphs, input ranges — positive on the range-dominance dimensions, and on the "
         "dimensions OUTSIDE every range dominance positive / zero (input_min == input_max) / one-sided / absent in "
-        "any mixture —, norm order in {None,1,2,inf}) and Categorical "
+        "any mixture —, monotonic AND range dominances together on disjoint dimensions, norm order in {None,1,2,inf}, "
+        "their aliases (0, False = none; True, 1.0 = 1; 2.0, 'euclidean' = 2) and general p-norms (0.5, 1.5, 2.5, 3); "
+        "hostile: a dimension used by both kinds of dominance, and normalization orders tf.norm rejects "
+        "(-1, -2, -inf, 'fro', '1', 'inf', [1], nan) — rejected at construction or else projecting; "
+        "LinearConstraints without monotonicities (None / []): unconstrained weights only normalised; "
+        "kernels below / at the normalisation guard (1-norm around 1e-8) and all <= 0 on all-increasing layers) and Categorical "
         "(2-8 buckets, acyclic pair graphs: chains, diamonds, forests, shared parents, duplicate pairs; bounds "
         "none/min/max/both); kernels dyadic/int(ties)/wide/tiny/huge/feasible. Non-trivial = the projection "
         "moved the kernel or the kernel was feasible by construction; distinct = distinct (layer, config "
         "class, kernel kind, moved) signature + case hash.")
 ASSUMPTIONS = ["float64 kernels; rounding tolerance 1e-9*scale",
+               "order 2 / general p: the model's pre-normalised column is divided by the float root / p-norm in Python "
+               "(the quotient is irrational); the guard norm < 1e-8 of order 2 is the model's rational test normSq < 1e-16",
                "theorems take validity of the order returned by the model of _topological_sort as a decidable "
                "hypothesis; the driver evaluates it on every case (reported as order_ok)"]
 
@@ -73,6 +87,49 @@ def rand_dag_pairs(rng, nodes, max_pairs):
         pairs.append(p)
   rng.shuffle(pairs)
   return pairs
+
+
+P_ORDERS = [0.5, 1.5, 2.5, 3]
+ALIASES = [0, False, True, 1.0, 2.0, "euclidean"]
+BAD_ORDERS = [-1, -2, "-inf", "fro", "1", "str:inf", [1], "nan"]
+
+
+def order_class(o):
+  """none / 1 / 2 / inf / p : what tf.norm(ord=o) computes (`if normalization_order:` skips falsy values)"""
+  if isinstance(o, str):
+    return {"inf": "inf", "euclidean": "2"}[o]
+  if not o:
+    return "none"
+  if o == 1:
+    return "1"
+  if o == 2:
+    return "2"
+  return "p"
+
+
+def real_order(o):
+  """the value handed to the real code"""
+  if o == "inf":
+    return np.inf
+  if o == "-inf":
+    return -np.inf
+  if o == "nan":
+    return float("nan")
+  if o == "str:inf":
+    return "inf"
+  return o
+
+
+def pnorm(col, o):
+  cls = order_class(o)
+  a = np.abs(np.asarray(col, dtype=np.float64))
+  if cls == "1":
+    return float(np.sum(a))
+  if cls == "2":
+    return float(np.sqrt(np.sum(a * a)))
+  if cls == "inf":
+    return float(np.max(a)) if len(a) else 0.0
+  return float(np.sum(a ** float(o)) ** (1.0 / float(o)))
 
 
 def gen_kernel(rng, n, units):
@@ -135,8 +192,19 @@ def run_linear(ctx, ncases):
         zero_outside += 1
       elif r < 0.4:
         lo[i], hi[i] = rng.choice([(None, None), (Fraction(rng.randint(-4, 4)), None), (None, Fraction(rng.randint(-4, 4)))])
-    ord_ = rng.choice([None, None, 1, 2, "inf"])
+    ord_ = rng.choice([None, None, 1, 2, "inf", 1, 2, "inf", rng.choice(P_ORDERS), rng.choice(ALIASES)])
     kind, w = gen_kernel(rng, n, units)
+    r = rng.random()
+    if r < 0.06:
+      # around the normalisation guard _NORMALIZATION_EPS = 1e-8: entries k * 2^-30 (~1e-9 each)
+      kind = "guard"
+      w = [[Fraction(rng.randint(-6, 6), 2 ** 30) for _ in range(units)] for _ in range(n)]
+    elif r < 0.10:
+      # nothing survives the sign clip: every weight on the wrong side (zero column after the clip: the degenerate
+      # case of the normalisation, F-C03-a)
+      kind = "wrong-side"
+      w = [[(-abs(gen_value(rng, "dyadic")) if monos[i] >= 0 else abs(gen_value(rng, "dyadic"))) if monos[i] != 0
+            else Fraction(0) for _ in range(units)] for i in range(n)]
     if rng.random() < 0.15:
       # feasible by construction: project once, feed the result back
       kind = "feasible"
@@ -152,8 +220,7 @@ def run_linear(ctx, ncases):
     kw = dict(cfg)
     kw["input_min"] = None if cfg["input_min"] is None else [None if v is None else float(v) for v in cfg["input_min"]]
     kw["input_max"] = None if cfg["input_max"] is None else [None if v is None else float(v) for v in cfg["input_max"]]
-    if kw["normalization_order"] == "inf":
-      kw["normalization_order"] = np.inf
+    kw["normalization_order"] = real_order(kw["normalization_order"])
     cons = linear_layer.LinearConstraints(**kw)
     wf = np.array([[float(v) for v in row] for row in w], dtype=np.float64)
     if kind == "feasible":
@@ -168,6 +235,12 @@ def run_linear(ctx, ncases):
       err = None
     except Exception as e:  # the real code rejects / crashes
       out, err = None, classify_exc(e)
+    out2 = None
+    if err is None and np.all(np.isfinite(out)):
+      try:
+        out2 = cons(tf.constant(out, dtype=tf.float64)).numpy()     # idempotence: the result is a fixpoint
+      except Exception as e:
+        out2 = classify_exc(e)
     lo = cfg["input_min"] or [None] * n
     hi = cfg["input_max"] or [None] * n
     case = dict(layer="linear", cfg=cfg, kind=kind, w=w)
@@ -176,19 +249,28 @@ def run_linear(ctx, ncases):
       lines.append("lin.project %s %s %s %s %s %s %s" % (
           il(cfg["monotonicities"]), il2(cfg["monotonic_dominances"] or []), il2(cfg["range_dominances"] or []),
           ",".join(opt(v) for v in lo), ",".join(opt(v) for v in hi),
-          "none" if cfg["normalization_order"] is None else str(cfg["normalization_order"]), frl(col)))
-    ctx.pending.append((case, wf, out, err, units, n))
+          ORD_TOKEN[order_class(cfg["normalization_order"])], frl(col)))
+    ctx.pending.append((case, wf, out, err, units, n, out2))
   return lines
 
 
+# what the model is asked for: orders 1 / inf are normalised in Q; for order 2 the model's `project` IS the
+# pre-normalised column (Tfl.C06.project_l2_eq_pre); a general p is asked as `none` (= the pre-normalised column)
+ORD_TOKEN = {"none": "none", "1": "1", "inf": "inf", "2": "2", "p": "none"}
+
+
 def check_linear(ctx, item, replies):
-  case, wf, out, err, units, n = item
+  case, wf, out, err, units, n, out2 = item
   cfg = case["cfg"]
   scale = max_abs(wf.ravel())
+  ocls = order_class(cfg["normalization_order"])
   cls = "lin:m%d%d%d:md%d:rd%d:ord%s" % (int(1 in cfg["monotonicities"]), int(-1 in cfg["monotonicities"]),
                                           int(0 in cfg["monotonicities"]), bool(cfg["monotonic_dominances"]),
-                                          bool(cfg["range_dominances"]), cfg["normalization_order"])
+                                          bool(cfg["range_dominances"]), ocls)
   ctx.count(cls)
+  ctx.count("order:%r" % (cfg["normalization_order"],))
+  if cfg["monotonic_dominances"] and cfg["range_dominances"]:
+    ctx.count("lin:both-dominance-kinds")
   ctx.count("kind:" + case["kind"])
   key = dict(layer="linear", cls=cls, kind=case["kind"])
   if err is not None:
@@ -206,15 +288,37 @@ def check_linear(ctx, item, replies):
       ctx.disagree("linear.project", case, out[:, u], replies[u], "model rejects, code accepts")
       continue
     model = parse_rats(toks[0])
-    if cfg["normalization_order"] == 2:
-      nsq = float(Fraction(toks[1]))
-      norm = math.sqrt(nsq)
-      if norm < 1e-8:
-        norm = 1.0
-      model = [Fraction(float(m) / norm) for m in model]
-      ctx.compare("linear.project", case, out[:, u], model, max(scale, scale / norm), rtol=1e-7)
+    if ocls in ("2", "p"):
+      # the model returned the PRE-normalised column; the quotient by the root / p-norm is irrational: real arithmetic
+      nsq = Fraction(toks[1])
+      if ocls == "2":
+        skip = toks[2] == "1"                       # the guard norm < 1e-8, decided by the model in Q
+        norm = 1.0 if skip else math.sqrt(float(nsq))
+        ctx.count("l2:skips:%d" % skip)
+      else:
+        norm = pnorm([float(m) for m in model], cfg["normalization_order"])
+        if not (norm >= 1e-8):
+          norm = 1.0
+      near_guard = abs(norm - 1e-8) < 1e-14 or (ocls == "2" and abs(float(nsq) - 1e-16) < 1e-24)
+      if near_guard:
+        ctx.count("guard:undecidable-in-floats")   # the float norm may fall on either side: no comparison
+        continue
+      scaled = [Fraction(float(m) / norm) for m in model]
+      ctx.compare("linear.project", case, out[:, u], scaled, max(scale, scale / norm), rtol=1e-7)
+      if ocls == "2" and not skip:
+        # root-free form of the claim out = pre / sqrt(normSq pre): out_i^2 * normSq == pre_i^2 and equal signs
+        ok = True
+        for o_, m_ in zip(out[:, u], model):
+          lhs = Fraction(float(o_)) ** 2 * nsq
+          rhs = m_ * m_
+          if abs(lhs - rhs) > Fraction(1, 10 ** 7) * max(rhs, nsq * Fraction(1, 10 ** 14)) or (m_ != 0 and (float(o_) > 0) != (m_ > 0) and lhs > nsq * Fraction(1, 10 ** 14)):
+            ok = False
+        if ok:
+          ctx.agree("linear.project.l2_rootfree")
+        else:
+          ctx.disagree("linear.project.l2_rootfree", case, [float(v) for v in out[:, u]], [fr(m_) for m_ in model],
+                       "out_i^2 * normSq != pre_i^2 (normSq=%s)" % fr(nsq))
     else:
-      nrm = 1.0
       ctx.compare("linear.project", case, out[:, u], model, scale, rtol=1e-9)
   # ---- oracle on the real result
   tol = 1e-7 * max(1.0, float(np.max(np.abs(out))) if np.all(np.isfinite(out)) else 1.0)
@@ -234,7 +338,7 @@ def check_linear(ctx, item, replies):
     for i in {i for p in cfg["range_dominances"] for i in p}:
       sc[i] *= float(cfg["input_max"][i] - cfg["input_min"][i])
     # inputs outside the range dominances (and the monotonic dominances) are only sign-clipped and normalised
-    if cfg["normalization_order"] is None:
+    if ocls == "none":
       touched = {i for p in (cfg["range_dominances"] or []) + (cfg["monotonic_dominances"] or []) for i in p}
       for i in range(n):
         if i not in touched:
@@ -247,11 +351,21 @@ def check_linear(ctx, item, replies):
       if np.min(sc[d] * out[d] - sc[k] * out[k]) < -rtol_:
         ctx.fail("range_dominance", key, case, out, "dominant %d weak %d" % (d, k))
   o = cfg["normalization_order"]
-  if o is not None:
-    nm = np.linalg.norm(out, ord=np.inf if o == "inf" else o, axis=0)
+  if ocls != "none":
+    # unit norm of the requested order unless numerically zero: the code's own notion is norm < 1e-8
+    # (_NORMALIZATION_EPS); a column returned with a norm in [1e-8, 1) was NOT normalised
     for u in range(units):
-      if abs(nm[u] - 1.0) > 1e-6 and abs(nm[u]) > 1e-6:
-        ctx.fail("norm", key, case, out, "unit %d norm %r" % (u, nm[u]))
+      nm = pnorm(out[:, u], o)
+      if abs(nm - 1.0) > 1e-6 and nm >= 1e-8 * (1 + 1e-6):
+        ctx.fail("norm", key, case, out, "unit %d norm %r" % (u, nm))
+      ctx.count("norm:unit" if abs(nm - 1.0) <= 1e-6 else "norm:below-guard")
+  # the result is a fixpoint of the WHOLE projection, normalisation included (Tfl.C06.accepted_project, last clause)
+  if isinstance(out2, str):
+    ctx.fail("raises", key, case, out2, "the projection raises on its own result")
+  elif out2 is not None:
+    d = float(np.max(np.abs(out2 - out))) if out.size else 0.0
+    if not np.all(np.isfinite(out2)) or d > 1e-7 * max(1.0, float(np.max(np.abs(out))) if out.size else 1.0):
+      ctx.fail("idempotent", key, case, out, "project(project(w)) differs from project(w) by %g" % d)
   if case["kind"] == "feasible":
     if float(np.max(np.abs(out - wf))) > 1e-7 * scale:
       ctx.fail("fixpoint", key, case, out, "feasible kernel moved by %g" % float(np.max(np.abs(out - wf))))
@@ -337,7 +451,44 @@ def gen_hostile_linear(rng):
   behind a root / in front of a tail, with repeated pairs) or whose range-dominance dimensions carry the
   monotonicity None — or, as the accepted control, a chain through the same dimensions."""
   n = rng.randint(2, 6)
-  kind = rng.choice(["cycle", "cycle", "self", "none_mono", "chain"])
+  kind = rng.choice(["cycle", "cycle", "self", "none_mono", "chain", "shared", "shared", "bad_order", "no_monos"])
+  if kind == "no_monos":
+    # LinearConstraints without monotonicities (None / empty list): no sign constraint, dominances impossible
+    cfg = dict(monotonicities=rng.choice([None, []]), monotonic_dominances=None, range_dominances=None, input_min=None,
+               input_max=None, normalization_order=rng.choice([None, 1, 2, "inf"]))
+    return dict(layer="linear_hostile", hostile=kind, cfg=cfg, w=[[gen_value(rng, "dyadic")] for _ in range(n)])
+  if kind == "shared":
+    # a dimension used by BOTH kinds of dominance: the range-dominance stage runs second and may undo the
+    # monotonic dominance on it (the composite theorem needs the two node sets disjoint: verifyLinear_disjoint)
+    n = rng.randint(3, 6)
+    monos = [1] * n
+    order = list(range(n))
+    rng.shuffle(order)
+    s_, a_, b_ = order[0], order[1], order[2]
+    wadv = None
+    r = rng.random()
+    if r < 0.35:
+      # s dominates a monotonically, b dominates s by range: a small weight on b pulls w_s below w_a
+      md, rd, wadv = [(s_, a_)], [(b_, s_)], {s_: Fraction(2), a_: Fraction(2), b_: Fraction(0)}
+    elif r < 0.7:
+      # a dominates s monotonically, s dominates b by range: a large weight on b lifts w_s above w_a
+      md, rd, wadv = [(a_, s_)], [(s_, b_)], {s_: Fraction(1), a_: Fraction(1), b_: Fraction(10)}
+    else:
+      md = [(s_, a_) if rng.random() < 0.5 else (a_, s_)]
+      rd = [(s_, b_) if rng.random() < 0.5 else (b_, s_)]
+    if n >= 5 and rng.random() < 0.5:
+      md.append((order[3], order[1]))
+    lo = [Fraction(rng.randint(-4, 4), 2) for _ in range(n)]
+    cfg = dict(monotonicities=monos, monotonic_dominances=md, range_dominances=rd, input_min=lo,
+               input_max=[a + Fraction(rng.randint(1, 16), 4) for a in lo], normalization_order=rng.choice([None, 1]))
+    w = [[wadv[i] if wadv is not None and i in wadv else gen_value(rng, "dyadic")] for i in range(n)]
+    return dict(layer="linear_hostile", hostile=kind, cfg=cfg, w=w)
+  if kind == "bad_order":
+    # a normalization_order tf.norm does not support as a vector norm
+    monos = [rng.choice([-1, 0, 1]) for _ in range(n)]
+    cfg = dict(monotonicities=monos, monotonic_dominances=None, range_dominances=None, input_min=None, input_max=None,
+               normalization_order=rng.choice(BAD_ORDERS))
+    return dict(layer="linear_hostile", hostile=kind, cfg=cfg, w=[[gen_value(rng, "dyadic")] for _ in range(n)])
   which = rng.choice(["monotonic_dominances", "range_dominances"])
   sign = 1 if which == "monotonic_dominances" else rng.choice([1, -1])
   monos = [sign] * n
@@ -369,6 +520,17 @@ def gen_hostile_linear(rng):
   return dict(layer="linear_hostile", hostile=kind, cfg=cfg, w=w)
 
 
+def fail_limited(ctx, tag, limit, clause, key, case, observed, detail=""):
+  """failures of a PINNED hostile class are listed `limit` times per run and counted beyond that: the failure list
+  of a run is capped, and a flood of one known finding must not crowd out other failures."""
+  seen = ctx.__dict__.setdefault("_limited", {})
+  seen[tag] = seen.get(tag, 0) + 1
+  if seen[tag] <= limit:
+    ctx.fail(clause, key, case, observed, detail)
+  else:
+    ctx.count("not-listed:" + tag)
+
+
 def check_hostile_linear(ctx, case):
   """property: such a configuration is rejected with ValueError at construction, or (the chain control, and
   whatever else is accepted) the projection does not raise and returns finite weights meeting the dominances."""
@@ -380,8 +542,10 @@ def check_hostile_linear(ctx, case):
     kw[k] = None if cfg[k] is None else [float(Fraction(v)) for v in cfg[k]]
   for k in ("monotonic_dominances", "range_dominances"):
     kw[k] = None if cfg[k] is None else [tuple(p) for p in cfg[k]]
+  kw["normalization_order"] = real_order(cfg["normalization_order"])
   key = dict(layer="linear", cls="hostile:" + case["hostile"], kind="dyadic")
-  ctx.case(sig=("hostile", case["hostile"], len(cfg["monotonicities"]), bool(cfg["range_dominances"])), nontrivial=True, sample=case)
+  ctx.case(sig=("hostile", case["hostile"], len(cfg["monotonicities"] or []), bool(cfg["range_dominances"]),
+                repr(cfg["normalization_order"]) if case["hostile"] == "bad_order" else ""), nontrivial=True, sample=case)
   try:
     cons = linear_layer.LinearConstraints(**kw)
   except ValueError as e:
@@ -399,16 +563,36 @@ def check_hostile_linear(ctx, case):
   try:
     out = cons(tf.constant(wf)).numpy()
   except Exception as e:  # pylint: disable=broad-except
-    ctx.fail("raises", key, case, classify_exc(e), "accepted at construction, the projection raises: %s" % str(e)[:120])
+    detail = "accepted at construction, the projection raises: %s" % str(e)[:120]
+    if case["hostile"] in ("bad_order", "no_monos"):
+      fail_limited(ctx, case["hostile"] + ":raises", 8, "raises", key, case, classify_exc(e), detail)
+    else:
+      ctx.fail("raises", key, case, classify_exc(e), detail)
     return
   if not np.all(np.isfinite(out)):
-    ctx.fail("finite", key, case, out)
+    if case["hostile"] == "bad_order":
+      fail_limited(ctx, "bad_order:finite", 4, "finite", key, case, out)
+    else:
+      ctx.fail("finite", key, case, out)
     return
   tol = 1e-7 * max(1.0, float(np.max(np.abs(wf))))
-  if cfg["normalization_order"] is None:
-    for d, k in kw["monotonic_dominances"] or []:
-      if np.min(out[d] - out[k]) < -tol:
-        ctx.fail("monotonic_dominance", key, case, out, "dominant %d weak %d" % (d, k))
+  if case["hostile"] == "no_monos":
+    # no constraint at all: the weights are returned unchanged, or normalised
+    o = cfg["normalization_order"]
+    for u in range(out.shape[1]):
+      nm0 = pnorm(wf[:, u], o) if order_class(o) != "none" else 1.0
+      want = wf[:, u] / (nm0 if nm0 >= 1e-8 else 1.0)
+      if out.shape != wf.shape or float(np.max(np.abs(out[:, u] - want))) > 1e-9 * max(1.0, float(np.max(np.abs(want)))):
+        ctx.fail("fixpoint", key, case, out, "unconstrained weights changed otherwise than by the normalisation")
+    return
+  for d, k in kw["monotonic_dominances"] or []:
+    if np.min(out[d] - out[k]) < -tol:
+      ctx.fail("monotonic_dominance", key, case, out, "dominant %d weak %d" % (d, k))
+  if kw["range_dominances"] and kw["input_min"] is not None and all(m in (1, -1) for m in cfg["monotonicities"]):
+    sc = [(-1.0 if m == -1 else 1.0) * (kw["input_max"][i] - kw["input_min"][i]) for i, m in enumerate(cfg["monotonicities"])]
+    for d, k in kw["range_dominances"]:
+      if np.min(sc[d] * out[d] - sc[k] * out[k]) < -tol * max(abs(v) for v in sc):
+        ctx.fail("range_dominance", key, case, out, "dominant %d weak %d" % (d, k))
   if case["hostile"] == "none_mono":
     ctx.fail("raises", key, case, "accepted", "a range dominance between features without monotonicity was accepted")
 
@@ -451,18 +635,24 @@ def replay(ctx, failure):
       kw[k] = None if cfg[k] is None else [None if v is None else float(v) for v in cfg[k]]
     for k in ("monotonic_dominances", "range_dominances"):
       kw[k] = None if cfg[k] is None else [tuple(p) for p in cfg[k]]
-    if kw["normalization_order"] == "inf":
-      kw["normalization_order"] = np.inf
+    kw["normalization_order"] = real_order(kw["normalization_order"])
+    out2 = None
     try:
-      out, err = linear_layer.LinearConstraints(**kw)(tf.constant(wf)).numpy(), None
+      cons = linear_layer.LinearConstraints(**kw)
+      out, err = cons(tf.constant(wf)).numpy(), None
+      if np.all(np.isfinite(out)):
+        try:
+          out2 = cons(tf.constant(out)).numpy()
+        except Exception as e:
+          out2 = classify_exc(e)
     except Exception as e:
       out, err = None, classify_exc(e)
     lines = ["lin.project %s %s %s %s %s %s %s" % (
         il(cfg["monotonicities"]), il2(cfg["monotonic_dominances"] or []), il2(cfg["range_dominances"] or []),
         ",".join(opt(v) for v in (cfg["input_min"] or [None] * n)), ",".join(opt(v) for v in (cfg["input_max"] or [None] * n)),
-        "none" if cfg["normalization_order"] is None else str(cfg["normalization_order"]),
+        ORD_TOKEN[order_class(cfg["normalization_order"])],
         frl([w[i][u] for i in range(n)])) for u in range(units)]
-    check_linear(ctx, (case, wf, out, err, units, n), run_driver(lines))
+    check_linear(ctx, (case, wf, out, err, units, n, out2), run_driver(lines))
   else:
     from tensorflow_lattice.python import categorical_calibration_layer as ccl
     lo = None if cfg["output_min"] is None else Fraction(cfg["output_min"])
